@@ -23,6 +23,7 @@ from .types import (
     rec_optional,
     sort_of,
     sort_tag,
+    stag,
     strip_opt,
     vbool,
     vint,
@@ -129,6 +130,9 @@ def canon_class(E, name):
         return c
     # resolve an import alias: `from elasticsearch import ConnectionError` -> elasticsearch.ConnectionError
     head, _, rest = name.partition(".")
+    if head in E.local_imports:
+        full = E.local_imports[head] + ("." + rest if rest else "")
+        return ALIAS.get(full, full)
     for mod in (E.cur_mod, E.mod):
         if head in mod.imports:
             full = mod.imports[head] + ("." + rest if rest else "")
@@ -188,6 +192,8 @@ def global_name(E, name):
                 E.st.vars = saved
         if name in mod.imports:
             return V("fn", None, items=("module", mod.imports[name], None, mod, None), py=mod.imports[name])
+    if name in E.local_imports:
+        return V("fn", None, items=("module", E.local_imports[name], None, E.cur_mod, None), py=E.local_imports[name])
     if name in ("True", "False"):
         return vbool(name == "True")
     if name in PY_BUILTINS or name in STD_BASES:
@@ -294,6 +300,8 @@ def get_attr(E, v, attr, node=None):
         raise OutOfSubset(f"undeclared field {cls}.{attr}")
     if isinstance(v.ty, tuple) and v.ty[0] == "rec":
         raise OutOfSubset(f"attribute {attr} on record")
+    if v.ty == "any":
+        return V("any", z3.Function("any_attr", I, I, I)(v.z, atom("attr:" + attr)))
     # bound methods of builtin containers are handled in call(); reaching here means a non-call use
     return V("fn", None, items=("method", attr, None, None, v), py=attr)
 
@@ -405,7 +413,7 @@ def dict_types(E, d):
 
 def dict_names(kty, vty):
     ks, vs = sort_of(kty), sort_of(vty)
-    return "dom." + sort_tag(ks), "val." + sort_tag(ks) + sort_tag(vs), ks, vs
+    return "dom." + sort_tag(ks), "val." + sort_tag(ks) + "." + stag(vty), ks, vs
 
 
 def dict_has(E, d, key):
@@ -474,9 +482,22 @@ def contains(E, cont, x):
         j = z3.Int(f"j!in{next(_cnt)}")
         n = E.hread("len", I, cont.z)
         arr = E.hread(E.el_name(ety), z3.ArraySort(I, sort_of(ety)), cont.z)
+        if x.ty == "none":
+            if is_ref(ety) or ety in ("str", "any") or is_opt(ety):
+                return z3.Exists([j], z3.And(0 <= j, j < n, arr[j] == 0))
+            return z3.BoolVal(False)
+        if x.ty == "any" and ety == "int":
+            isint = z3.Function("any_is_int", I, B)(x.z)
+            unbox = z3.Function("any_int", I, I)(x.z)
+            ln = z3.simplify(n)
+            if z3.is_int_value(ln) and ln.as_long() <= 8:
+                return z3.And(isint, z3.Or(*[arr[k] == unbox for k in range(ln.as_long())]))
+            return z3.And(isint, z3.Exists([j], z3.And(0 <= j, j < n, arr[j] == unbox)))
         xv = E.coerce(x, ety)
-        if ety in ("int", "real", "bool", "str", "any") or True:
-            return z3.Exists([j], z3.And(0 <= j, j < n, arr[j] == xv.z))
+        ln = z3.simplify(n)
+        if z3.is_int_value(ln) and ln.as_long() <= 8:
+            return z3.Or(*[arr[k] == xv.z for k in range(ln.as_long())]) if ln.as_long() else z3.BoolVal(False)
+        return z3.Exists([j], z3.And(0 <= j, j < n, arr[j] == xv.z))
     if isinstance(t, tuple) and t[0] == "tuple":
         items = E.tuple_items(cont)
         return z3.Or(*[E.eq(x, it) for it in items]) if items else z3.BoolVal(False)
@@ -692,8 +713,10 @@ def make_exception(E, node):
 
 
 def opaque_exception(E, cls):
-    v = E.symbolic("exc", ("obj", cls))
-    return v
+    """an exception object raised by a callee: a fresh object (aliases nothing), fields unconstrained"""
+    if E.st.spec or E.st.pure:
+        return E.symbolic("exc", ("obj", cls))
+    return V(("obj", cls), E.alloc())
 
 
 def handler_matches(E, h, r):
@@ -1234,12 +1257,16 @@ def call_by_contract(E, c, fn, mod, selfv, args, kwargs, node):
             st.vars = env
         # havoc
         mods = [E.ev_spec_value(x).z for x in c.modifies]
-        if mods or c.d.get("allocates") or c.modifies == "*":
+        if mods or c.d.get("allocates") or c.modifies == "*" or c.d.get("emits"):
             for m_ in mods:
                 E.wframe(m_, f"call {c.qual}")
-            st.heap.havoc(st.nref, mods)
+            if "$trace" in st.vars and c.d.get("emits"):
+                mods.append(st.vars["$trace"].z)
+            nentry_ = st.nref
             st.nref = fresh("nref")
             st.pc.append(st.nref >= pre.nref)
+            st.heap.havoc(nentry_, mods, st.nref)
+            E.drain()
         outcomes = ["return"] + [k for k in c.raises]
         k = E.choose([z3.BoolVal(True)] * len(outcomes), check=False) if len(outcomes) > 1 else 0
         if k == 0:
@@ -1300,17 +1327,18 @@ def external_call(E, name, ext, e, recv=None, args=None, kwargs=None):
     env.update({k: v for k, v in st.vars.items() if k in ("self",)})
     for j, r in enumerate(ext.get("requires", [])):
         E.oblige("ext-pre", E.spec(r, extra=env), f"{name}/{j}")
-    if ext.get("event"):
-        emit(E, ext["event"], ([recv] if recv is not None and ext.get("event_recv") else []) + list(args) + [kwargs[k] for k in ext.get("event_kwargs", []) if k in kwargs])
     outcomes = ext.get("outcomes")
     if outcomes:
         k = E.choose([z3.BoolVal(True)] * len(outcomes), check=False)
         oc = outcomes[k]
     else:
         oc = {"returns": ext.get("returns", "none"), "ensures": ext.get("ensures", [])}
+    ev_args = ([recv] if recv is not None and ext.get("event_recv") else []) + list(args) + [kwargs[k_] for k_ in ext.get("event_kwargs", []) if k_ in kwargs]
     if oc.get("raises"):
         cls = canon_class(E, oc["raises"])
         exc = opaque_exception(E, cls)
+        if ext.get("event"):
+            emit(E, ext["event"] + "!", [exc, V("str", atom("cls:" + cls))] + ev_args)
         env2 = dict(env)
         env2["exc"] = exc
         for r in oc.get("ensures", []):
@@ -1327,6 +1355,8 @@ def external_call(E, name, ext, e, recv=None, args=None, kwargs=None):
     else:
         rty = parse_type(oc.get("returns", "none"))
         res = E.symbolic("x_" + name.replace(".", "_"), rty) if rty != "none" else NONE
+    if ext.get("event"):
+        emit(E, ext["event"], [res] + ev_args)
     env2 = dict(env)
     env2["result"] = res
     for r in oc.get("ensures", []):
@@ -1349,12 +1379,12 @@ def emit(E, kind, args):
         if a.ty == "none":
             st.heap.store(f"k.a{j}.i", I, ref, z3.IntVal(0))
             continue
-        st.heap.store(f"k.a{j}.{sort_tag(a.z.sort())}", a.z.sort(), ref, a.z)
+        st.heap.store(f"k.a{j}.{stag(a.ty)}", a.z.sort(), ref, a.z)
     tr = st.vars["$trace"]
     n = E.len_of(tr)
-    arr = E.hread("el.i", z3.ArraySort(I, I), tr.z)
+    arr = E.hread("el.p", z3.ArraySort(I, I), tr.z)
     # the trace is ghost: no frame obligation
-    st.heap.store("el.i", z3.ArraySort(I, I), tr.z, z3.Store(arr, n, ref))
+    st.heap.store("el.p", z3.ArraySort(I, I), tr.z, z3.Store(arr, n, ref))
     st.heap.store("len", I, tr.z, n + 1)
 
 
@@ -1646,9 +1676,11 @@ def container_method(E, recv, name, e):
         return str_method(E, recv, name, args, e)
     if t == "any":
         if name == "get":
-            has = z3.Function("any_has", I, I, B)(recv.z, args[0].z)
+            has = z3.And(recv.z != atom("{}"), recv.z != 0, z3.Function("any_has", I, I, B)(recv.z, args[0].z))
             val = any_item(E, recv, args[0])
             dflt = args[1] if len(args) > 1 else NONE
+            if isinstance(dflt.ty, tuple) and dflt.ty[0] == "dict" and dflt.ty[1] is None:
+                dflt = V("any", atom("{}"))  # the empty dict literal as default: a distinguished value without keys
             if dflt.ty in ("none", "any", "str"):
                 return V("any", z3.If(has, val.z, dflt.z if dflt.ty != "none" else z3.IntVal(0)))
             raise NeedFork() if st.pure else OutOfSubset("any.get with typed default")
@@ -1802,7 +1834,7 @@ def _event_ref(E, k):
     tr = E.st.vars["$trace"]
     old = E.st.labels["entry"]
     n0 = old.heap.get("len", I).read(tr.z)
-    return E.hread("el.i", z3.ArraySort(I, I), tr.z)[n0 + k]
+    return E.hread("el.p", z3.ArraySort(I, I), tr.z)[n0 + k]
 
 
 def spec_evk(E, e):
@@ -1814,7 +1846,9 @@ def spec_eva(E, e):
     k = E.to_int(E.ev(e.args[0]))
     j = e.args[1].value
     ty = parse_type(e.args[2].value) if len(e.args) > 2 else "any"
-    z = E.hread(f"k.a{j}.{sort_tag(sort_of(ty))}", sort_of(ty), _event_ref(E, k))
+    if isinstance(ty, tuple) and ty[0] == "obj":
+        ty = ("obj", canon_class(E, ty[1]))
+    z = E.hread(f"k.a{j}.{stag(ty)}", sort_of(ty), _event_ref(E, k))
     return V(strip_opt(ty), z)
 
 
@@ -1850,6 +1884,11 @@ def lemma_instance(E, name, binding):
         st.vars = saved
 
 
+def spec_clsname(E, e):
+    """clsname('elasticsearch.exceptions.ConnectionTimeout') -> the class atom recorded in call! events (canonical name)"""
+    return V("str", atom("cls:" + canon_class(E, e.args[0].value)))
+
+
 def spec_tag(E, e):
     return E.st.vars.get("$tag:" + e.args[0].value, vbool(False))
 
@@ -1880,6 +1919,7 @@ SPEC_FUNCS = {
     "has": spec_has,
     "lemma": spec_lemma,
     "tag": spec_tag,
+    "clsname": spec_clsname,
 }
 
 
@@ -1888,8 +1928,8 @@ def macro_call(E, name, args):
     st = E.st
     saved = st.vars
     st.vars = dict(zip(spec["names"], args))
-    for k in ("result",):
-        if k in saved:
+    for k in saved:
+        if k == "result" or k.startswith("$") or k in E._bound_names():
             st.vars.setdefault(k, saved[k])
     try:
         return E.ev(parse_spec(spec["body"]))
